@@ -3,6 +3,21 @@
 import json, subprocess, os
 
 CHECKS = {
+ "C02": dict(level="model_checking", engine="sched+vsync",
+   technique="stateless enumeration of all thread schedules up to a preemption bound (writer program x readers x background writer) on the real implementation, interval oracle over the scheduler's total order",
+   text="One writer program (overwrite full/partial, flush, free+alloc, checkpoint, commit that remaps the file; ending in commit, rollback, failed commit or two commits) runs against one or two readers on files with plain pages, overwrite mappings, fragmented free lists, or about to outgrow the mapping. Every schedule within the preemption bound is executed. Each reader reads every page twice with a scheduling point in between; both reads must equal one committed model state whose commit index lies between the last commit completed before BeginReadonly was called and the last commit started before it returned; aborted and failed commits are never visible; unmapped views are poisoned so a use-after-remap shows.",
+   note="Preemption-bounded; sequentially consistent interleavings at synchronisation/I/O granularity.",
+   ref="5/C02"),
+ "C14": dict(level="model_checking",
+   technique="explicit-state BFS with open-with-new-max-size as an operation of the alphabet, per-transition oracles and capacity probes",
+   text="ReopenWith(64|96|128|unbounded, prealloc) is part of the BFS alphabet on bounded and unbounded files, so every prior history of the graph meets every (old,new) pair and is followed by further history. Oracle: open succeeds, root and live pages equal the model, lock state idle and Begin/BeginReadonly complete (exact under the scheduler), the limit is applied and reported by FileStats after this and after a later plain open, after growing the capacity equation holds with the new maximum (probe on a twin), after shrinking the simulated file never extends beyond max(previous extent, new limit).",
+   note="Depth-bounded histories; sizes from a small set.",
+   ref="5/C14"),
+ "C15": dict(level="model_checking",
+   technique="exhaustive enumeration of the (receiver lifecycle state x API method) matrix after every prefix history of an explicit-state BFS",
+   text="After every distinct quiescent state of a BFS (and the empty file): transactions in states active/read-only/committed/rolled back/closed/failed commit x every Tx method with argument classes (page id 0, 1, end marker, huge, freed, live), and pages in states new-empty/clean/dirty/flushed/freed/read-only/finished x every Page method incl. oversize contents. Calls the documentation defines as invalid must return an error of the documented kind, never panic or block, and leave file snapshot and transaction state unchanged; afterwards the committed model state is still readable and a new transaction commits. The queue part (closed queue, ACK too many) runs on the queue driver.",
+   note="Expectation table written from the API documentation; cells whose result the documentation leaves open are only required not to panic.",
+   ref="5/C15"),
  "C08": dict(level="fault_enumeration", engine="simdisk",
    technique="exhaustive fault-plan enumeration (I/O call index x failure kind x burst length x writer timing) over histories selected from an explicit-state BFS, executed on the real implementation under the deadlock-detecting scheduler",
    text="For one representative history per I/O shape (including open-time resize, rollback after flush, checkpointing commits): every I/O call issued during the history's last transaction, every failure kind applicable to it (error before effect, short write then error, failing sync/truncate/size/mmap/munmap), burst lengths 1-3, with the background writer lazy or eager. Oracle: no panic, no deadlock (exact, by the scheduler), a commit whose I/O failed returns an error, in-process readers keep seeing exactly the last successfully committed model state, after the failures stop a new transaction commits on the same File, and after close/reopen the file shows that state or - only if the header was written and only the final sync failed - the complete state of that commit.",
